@@ -11,7 +11,7 @@
     tth istth <hex>          => true | false | PANIC <class>   IsTTHeader (no length check of its own)
     tth wstr <hex>           => ok <n> <bytes hex>   WriteString into a bytes writer, flushed
     tth wu32 <n>             => ok <bytes hex> <Bytes2Uint32NoCheck> <Bytes2Uint16NoCheck>   WriteUint32 + read back
-    tth dec <hex>            => decode result       bytes reader with cap = len
+    tth dec <hex>            => decode result       ttheader.DecodeFromBytes(bs); readlen from NewBytesReader+Decode on a copy
     tth decs <hex> <src>     => decode result       src = b<cap> | reader script
          decode result = ok <flags> <seq> <proto> <hl> <pl> <int> <str> <readlen> | err <e> <readlen> | PANIC <class>
 -/
@@ -321,7 +321,9 @@ def handleTth (args : List String) (impl : String) : String × String :=
     | none => ("bad-op", "na")
   | ["tth", "dec", hex] =>
     match parseHex hex with
-    | some b => (decStr (decodeBytes b b.length), decVerdict b res)
+    | some b =>
+      -- result column of DecodeFromBytes (the exported entry point) + ReadLen of the explicit reader path
+      (decStr (decodeFromBytes b b.length, (decodeBytes b b.length).2), decVerdict b res)
     | none => ("bad-op", "na")
   | ["tth", "decs", hex, src] =>
     match parseHex hex, parseSrc src with
